@@ -86,3 +86,9 @@ chk("C11", "model_checking",
     "The model is permissive where the statement is (a failing stage may or may not emit its completion event). Closure is observed by attempting a second close.",
     "explicit-state exploration of a model automaton plus conformance replay of every enumerated implementation run (fault x entry point x configuration) against it",
     "DESIGN.md §3 C11")
+
+chk("C08", "exploration",
+    "Exhaustive sweep of the linked engine's built-in table x 15 embedding positions x 10 call syntaxes: every combination for the five built-ins the property names must be rejected at compile time (by CompileProfile and by Validate) with the error naming the built-in as unsafe and with zero resolver/dial attempts on an instrumented resolver and loopback listener; all other built-ins serve as vacuity controls proving the templates are valid Rego (run is 'broken' below 90%).",
+    "B is read from ast.Builtins of the OPA version /repo links (re-established on every dependency bump). Arguments are synthesised from declared types; quick runs controls in two positions each, thorough in all.",
+    "exhaustive enumeration of (built-in x embedding position x call syntax) against the deny-list, with vacuity controls, on the real compile path",
+    "DESIGN.md §3 C08")
